@@ -8,8 +8,9 @@ produce the same trace of marks and oracle questions.  It is written from the Lu
 from darklua: it is the specification side of rules that evaluate a whole rewriting rule on enumerated programs.
 """
 from .peval import make, Enum, Struct, UNKNOWN, OPTION
+from sa.peval import none as peval_none
 
-NONE = Enum(OPTION, "None")
+from .peval import NONE        # one shared constant: values built from it get a None of their own (peval._own_nones)
 
 
 def some(v):
@@ -74,12 +75,12 @@ class Builder:
     def numfor(self, cond, block):
         # `for i = a<cond>, b<cond> do`: how many iterations run is the oracle's business (see run_skeleton)
         t = self.mk(self.TYPED, name=self.ident("i_" + cond), token=NONE)
-        t.fields["type"] = NONE
+        t.fields["type"] = peval_none()
         return self.stmt("NumericFor", self.mk(self.NUMFOR, identifier=t, start=self.var("a_" + cond), end=self.var("b_" + cond), step=NONE, block=block, tokens=NONE))
 
     def genfor(self, cond, block):
         t = self.mk(self.TYPED, name=self.ident("k_" + cond), token=NONE)
-        t.fields["type"] = NONE
+        t.fields["type"] = peval_none()
         return self.stmt("GenericFor", self.mk(self.GENFOR, identifiers=[t], expressions=[self.var("it_" + cond)], block=block, tokens=NONE))
 
     def loop(self, kind, cond, block):
@@ -98,7 +99,7 @@ class Builder:
 
     def local_value(self, name, expr):
         t = self.mk(self.TYPED, name=self.ident(name), token=NONE)
-        t.fields["type"] = NONE
+        t.fields["type"] = peval_none()
         return self.stmt("LocalAssign", self.mk(self.LOCAL, variables=[t], values=[expr], tokens=NONE))
 
     def cont(self):
